@@ -165,6 +165,7 @@ CONFIGS: Dict[str, Dict[str, List[Dict[str, Any]]]] = {
             _c("n12e18d4a2p3", nodes=12, edges=18, degree=4, agents=2, per_agent=3, time_limit=40),
             _c("n20e30d5a3p3L2", nodes=20, edges=30, degree=5, agents=3, per_agent=3, time_limit=2),
             _c("n12e18d4a2p3L1", nodes=12, edges=18, degree=4, agents=2, per_agent=3, time_limit=1),
+            _c("n20e30d3a3p3", nodes=20, edges=30, degree=3, agents=3, per_agent=3, time_limit=30),
         ],
     },
     "MultiCVRP": {
